@@ -272,3 +272,28 @@ CLAIMED.update({
 })
 _PENDING = "check not built yet (model/theorems under construction); see DESIGN.md section 9"
 NOT_APPLICABLE = {f"C{i:02d}": _PENDING for i in range(1, 21) if f"C{i:02d}" not in CLAIMED}
+
+
+# Statement files added after the first full pass (each integrated in _CoqProject; all theorems closed under the global context)
+EXTRA_NOTES = {
+    "C02": " Props/C02CachesFaults.v (pipe_refines_single_caches_strong): with caches, at EVERY fault (cache rejection included) registers, output and the whole "
+           "memory system (directory, counters) agree. Props/C02FaultTrace.v: at a fault the pipeline has retired every executed instruction (icount + 1 = single-cycle icount) and its retire "
+           "trace is the single-cycle trace, minus its last element exactly when the faulting load/store is back-to-back behind its predecessor.",
+    "C08": " Props/C08Caches.v: the same with any data / instruction cache (flagoff_lockstep_caches, flagoff_refines_single_caches, flagoff_is_dwb_caches). "
+           "Props/C08SchedFull.v: flagoff_schedule — retire cycles with the flag off follow the hazard-free recurrence for ALL supported programs incl. ecall.",
+    "C07": " Props/C07RetireCyclesCaches.v: with caches, the cycle counter at each retirement = start + W_k + penalties x misses so far. Props/C07SchedPrefix.v: the schedule holds as a PREFIX law for every number of cycles, also for non-terminating and faulting programs, "
+           "and the cycle in which a fault is raised is the faulting instruction's EX (ecall) / MEM (load, store) cycle of the recurrence. "
+           "Props/C07Events.v: the events of the recurrence (sources, destination) equal those of an independent ISA register table (Spec/IsaRegs.v) "
+           "for every non-CSR instruction; for CSR instructions (outside the property: unsupported) the model's decode names no register (events_from_isa_csr_refuted).",
+    "C09": " Props/C09RefPolicy.v: hit counter, access counter, last-hit flag and penalties also equal those of a tags-only reference built over the "
+           "SPECIFICATION policies only (history LRU, tree PLRU; own address split), for both write policies, and for the instruction cache.",
+    "C12": " Props/C12Tables.v: under write-through every row of the displayed memory table is the logical word and every non-zero logical word has a row; "
+           "under write-back a row is the backing word and is the logical word wherever the block is not resident.",
+    "C17": " Props/C17Tables.v: every register row denotes the current register value, the memory table has exactly the written words, ascending, each row "
+           "denoting the current backing word (RISC-V and TOY; the TOY pc row shows the address of the NEXT fetch).",
+    "C19": " Props/C19Lex.v + Model/ToyLex.v: the TOY tokenizer is inside the model (domain: every Python string) — layout, comments, mnemonic case and number "
+           "bases do not change the token lines (proved), and load_program(text) is compared with the model's lexer+assembler on the same text (requests 90/91).",
+    "C15": " For TOY the typed outcome is compared on ARBITRARY text with the model's own lexer + assembler (Model/ToyLex.v), not only on texts the real tokenizer accepts.",
+}
+for _k, _v in EXTRA_NOTES.items():
+    CLAIMED[_k]["note"] = CLAIMED[_k]["note"] + _v
